@@ -143,8 +143,9 @@ def check_doc(doc, seeds=(1, 2)):
         if in_fence or l.startswith("    ") or l.startswith("<div>"):
             plain_lines.append(l)
         else:
-            parts = re.split(r"(`[^`]*`|\\[{}])", l)     # code spans and escaped braces are not expressions
-            parts = [p if p.startswith(("`", "\\")) else re.sub(M.ScaledValueExpression.pattern.pattern, mark, p) for p in parts]
+            # code spans, inline HTML / autolinks (higher inline priority) and escaped braces are not expressions
+            parts = re.split(r"(`[^`]*`|<[^>]*>|\\[{}])", l)
+            parts = [p if p.startswith(("`", "\\", "<")) else re.sub(M.ScaledValueExpression.pattern.pattern, mark, p) for p in parts]
             plain_lines.append("".join(parts))
     plain = marko.Markdown()("\n".join(plain_lines))
     got = normalise_recipe_html(mr.html, mr)
